@@ -69,7 +69,20 @@ def nontrivial(case, events):
     return any(e['exit'] != 'converged' for e in steps) or (case['contractive'] and events[-1]['returned'])
 
 
+def liveness_part(rep):
+    """'in bounded work' as a liveness property of the design: under weak fairness of the solver's own steps every run
+    ends (all periods recorded, or an error raised that no caller retries any more) and stays there.  The hypothetical
+    variant without the cap test must give TLC's lasso (a system whose error never meets the tolerance sweeps for ever)."""
+    for cfg in ('MC_Solver_live.cfg', 'MC_Solver_live_retry.cfg'):
+        res = core.tlc('MC_Solver', cfg, workers=1, tag='c11l', want_printed=False)
+        if res.violated:
+            raise core.MachineryError('liveness property C11_Terminates violated in %s (%s)' % (cfg, res.violated))
+        rep.add_tlc(res, 'liveness (FairSpec, C11_Terminates) ' + cfg)
+    sk.expect_counterexample(rep, core, 'MC_Solver_live_nocap.cfg', 'C11_Terminates')
+
+
 def solver_part(rep):
+    liveness_part(rep)
     sk.expect_counterexample(rep, core, 'MC_Solver_asfound2.cfg', 'C11_EqualLengthsAfterFailure')
     behs = sk.tlc_behaviours(rep, core, rep.tier)
     items = [{'case': sk.scenario(b, v), 'behaviour': b} for b in behs if sk.scenario_realisable(b)
